@@ -31,7 +31,7 @@ func (p *Prog) lessSites() []lessSite {
 		}
 		ast.Inspect(fn.Decl.Body, func(n ast.Node) bool {
 			call, ok := n.(*ast.CallExpr)
-			if !ok || len(call.Args) != 2 {
+			if !ok || len(call.Args) < 2 {
 				return true
 			}
 			switch p.CalleeName(call) {
@@ -335,7 +335,7 @@ func (d *diag) eval(e ast.Expr) int {
 			}
 		}
 	case *ast.CallExpr:
-		if sel, ok := unparen(x.Fun).(*ast.SelectorExpr); ok && len(x.Args) == 1 {
+		if sel, ok := unparen(x.Fun).(*ast.SelectorExpr); ok && len(x.Args) >= 1 {
 			if _, isPkg := d.p.ObjOf(identOf(sel.X)).(*types.PkgName); !isPkg && d.norm(sel.X) == d.norm(x.Args[0]) {
 				r, ok := d.keyRel(sel.X, x.Args[0])
 				if !ok && d.sideOf(sel.X) == d.sideOf(x.Args[0]) {
@@ -356,8 +356,8 @@ func (d *diag) eval(e ast.Expr) int {
 		switch d.p.CalleeName(x) {
 		case "resources.StrictlyGreaterThan":
 			// StrictlyGreaterThan(Sub(a, a), Zero) == false
-			if len(x.Args) == 2 {
-				if sub, ok := unparen(x.Args[0]).(*ast.CallExpr); ok && d.p.IsCall(sub, "resources.Sub") && len(sub.Args) == 2 && strings.HasSuffix(types.ExprString(x.Args[1]), "Zero") {
+			if len(x.Args) >= 2 {
+				if sub, ok := unparen(x.Args[0]).(*ast.CallExpr); ok && d.p.IsCall(sub, "resources.Sub") && len(sub.Args) >= 2 && strings.HasSuffix(types.ExprString(x.Args[1]), "Zero") {
 					// Sub(a, b) strictly greater than zero  <=>  a greater than b (as one key)
 					if r, ok := d.keyRel(sub.Args[0], sub.Args[1]); ok {
 						return relHolds(token.GTR, r)
@@ -694,7 +694,7 @@ func rulesC19(c *Ctx) {
 				return true
 			}
 			call, ok := unparen(as.Rhs[0]).(*ast.CallExpr)
-			if !ok || len(call.Args) != 2 {
+			if !ok || len(call.Args) < 2 {
 				return true
 			}
 			if id, ok := unparen(call.Fun).(*ast.Ident); !ok || id.Name != "append" {
@@ -816,7 +816,7 @@ func rulesC19(c *Ctx) {
 			st := p.StateAt(fn, rs)
 			acc := p.Holds(st, func(a Atom) bool {
 				ac, ok := unparen(a.E).(*ast.CallExpr)
-				if !ok || !a.Val || len(ac.Args) != 1 {
+				if !ok || !a.Val || len(ac.Args) < 1 {
 					return false
 				}
 				_, isAccept := p.fieldSel(ac.Fun, "objects.treeIterator.accept")
@@ -843,8 +843,34 @@ func rulesC19(c *Ctx) {
 		// non-accepted nodes continue the walk: the literal's last statement is `return true`
 		ast.Inspect(fn.Decl.Body, func(nd ast.Node) bool {
 			if lit, ok := nd.(*ast.FuncLit); ok && len(lit.Body.List) > 0 {
-				rs, isRet := lit.Body.List[len(lit.Body.List)-1].(*ast.ReturnStmt)
-				c.Check("C19.e", "walk continues past rejected nodes", lit, isRet && len(rs.Results) == 1 && p.isConstBool(rs.Results[0], true), "the walk does not continue after a node that is not accepted: nodes behind a reserved node would never be visited")
+				// every way out of the visitor that does not answer `true` (continue) is taken for an accepted node only
+				okAll, nRet := true, 0
+				ast.Inspect(lit.Body, func(m ast.Node) bool {
+					rs, isRet := m.(*ast.ReturnStmt)
+					if !isRet || len(rs.Results) != 1 {
+						return true
+					}
+					nRet++
+					if p.isConstBool(rs.Results[0], true) {
+						return true
+					}
+					st := p.StateAt(fn, rs)
+					acc := st != nil && p.Holds(st, func(a Atom) bool {
+						ac, isCall := unparen(a.E).(*ast.CallExpr)
+						if !isCall || !a.Val {
+							return false
+						}
+						_, isAccept := p.fieldSel(ac.Fun, "objects.treeIterator.accept")
+						return isAccept
+					})
+					if !acc {
+						okAll = false
+					}
+					return true
+				})
+				last, endsRet := lit.Body.List[len(lit.Body.List)-1].(*ast.ReturnStmt)
+				_ = last
+				c.Check("C19.e", "walk continues past rejected nodes", lit, okAll && nRet > 0 && endsRet, "the walk does not continue after a node that is not accepted: nodes behind a reserved node would never be visited")
 				return false
 			}
 			return true
@@ -858,7 +884,7 @@ func rulesC19(c *Ctx) {
 				return true
 			}
 			call, ok := unparen(as.Rhs[0]).(*ast.CallExpr)
-			if ok && p.IsCall(call, "objects.NewTreeIterator") && len(call.Args) == 2 {
+			if ok && p.IsCall(call, "objects.NewTreeIterator") && len(call.Args) >= 2 {
 				got[p.Src(as.Lhs[0])] = p.Src(call.Args[0]) + "|" + p.Src(call.Args[1])
 			}
 			return true
